@@ -3,7 +3,7 @@
    (pkg/gossip/listener.go, gossip.go). Nondeterministic choices of the real code (shuffle and map order,
    wall clock) are oracle arguments whose legality the model checks. Models only. *)
 From Coq Require Import List String NArith ZArith Bool.
-From Piko Require Import Base.Maps Base.Strs Gossip.Types Gossip.Local Gossip.Apply Gossip.Codec.
+From Piko Require Import Base.Maps Base.Strs Base.Utf8 Gossip.Types Gossip.Local Gossip.Apply Gossip.Codec.
 Import ListNotations.
 Open Scope string_scope. Open Scope list_scope. Open Scope N_scope.
 
@@ -127,6 +127,15 @@ Definition handle_packet (c : cstate) (b : pbody) (max : N) (nows : amap Z) (ord
       {| h_state := c1; h_events := ev; h_out := []; h_err := false; h_oracle_ok := true; h_reports := [from_id] |}
   end.
 
+(* clusterState.ApplyDigest / applyDeltaEntry ignore every node whose id is not valid UTF-8 (ids become metric label
+   values, which panic otherwise: finding U1). Members' ids are valid UTF-8 (configuration), so this only ever matters
+   for packets forged outside the cluster: the model applies it where those enter (WInject). *)
+Definition sanitize_body (b : pbody) : pbody :=
+  match b with
+  | PDigest fi fa rq dg => PDigest fi fa rq (filter (fun d => valid_utf8 (d_id d)) dg)
+  | PDelta fi fa parts => PDelta fi fa (filter (fun p => valid_utf8 (dp_id p)) parts)
+  end.
+
 (* ---- ghost log maintenance for local writes ---- *)
 Definition new_entries (old new : node_state) : list entry :=
   filter (fun e => match lookup (e_key e) (n_ents old) with
@@ -219,7 +228,7 @@ Definition wstep (w : world) (o : wop) : step_out :=
       match nth_error (w_nodes w) n with
       | None => plain w
       | Some c =>
-          let hd := handle_packet c b max nows order in
+          let hd := handle_packet c (sanitize_body b) max nows order in
           {| so_world := with_nodes w (set_nth n (h_state hd) (w_nodes w)) (w_net w);
              so_events := tag n (h_events hd); so_sent := h_out hd; so_err := h_err hd;
              so_oracle_ok := h_oracle_ok hd; so_reports := h_reports hd |}
